@@ -147,6 +147,19 @@ func judge(rep *mbt.Report, tr irhist.Transition, st *stats, source string) {
 				Case: c})
 		}
 	}
+	// every printing observer of the history, repeated at once, returned the same text
+	if with.TwiceDiff != "" {
+		rep.Fail(mbt.Failure{Signature: "C14|print twice|text differs|" + with.TwiceOp,
+			What: fmt.Sprintf("history %s: observer repeated at once gives another text -- %s", key, with.TwiceDiff), Case: c})
+	}
+	// after the final print, Func.LLString of each function is its part of the module text
+	for _, r := range []irhist.Result{with, without} {
+		if r.PartDiff != "" {
+			rep.Fail(mbt.Failure{Signature: "C14|print twice|text differs|Func.LLString is not the function's part of Module.String",
+				What: fmt.Sprintf("history %s: %s", key, r.PartDiff), Case: c})
+			break
+		}
+	}
 	// conformance of the generator: the unobserved history prints what the specification requires
 	// (a divergence is C08's subject -- it is counted here, judged there)
 	if without.EarlyMsg == "" {
@@ -299,7 +312,8 @@ func Run(tier, replay string) {
 	build := map[string]string{"MaxSrc": "0", "MaxCalls": "4"}
 	parse := map[string]string{"MaxSrc": "2", "MaxCalls": "3"}
 	// one function, everything unnamed: deeper histories over the local numbering
-	locals := map[string]string{"MaxSrc": "0", "MaxCalls": "5", "MaxPerGroup": "0", "NewNames": `{""}`, "SetNames": `{"y"}`}
+	// (two parameters: naming / un-naming one shifts the other)
+	locals := map[string]string{"MaxSrc": "0", "MaxCalls": "5", "MaxPerGroup": "0", "MaxParams": "2", "NewNames": `{""}`, "SetNames": `{"y"}`}
 	if tier == "thorough" {
 		build["TermKinds"] = `{"ret", "br", "invoke", "callbr", "catchswitch"}`
 		parse["TermKinds"] = `{"ret", "invoke", "catchswitch"}`
@@ -362,17 +376,20 @@ func Run(tier, replay string) {
 		t := mbt.MustTLC(mbt.TLCOpts{Spec: "IRState", Cfg: cfg, Consts: c, Workers: 1})
 		found := false
 		for _, v := range t.Violated {
-			if v == want || v == want+"Step" {
-				found = true
+			for _, w := range strings.Split(want, ",") {
+				if v == w || v == w+"Step" {
+					found = true
+				}
 			}
 		}
 		if !found {
 			mbt.Infra("vacuity guard %s: IRState does not violate %s (violated: %v)", label, want, t.Violated)
 		}
-		rep.Extra["guard_"+label] = want + " violated as expected after " + fmt.Sprint(t.Distinct) + " states"
+		rep.Extra["guard_"+label] = fmt.Sprint(t.Violated) + " violated as expected after " + fmt.Sprint(t.Distinct) + " states"
 		t.Cleanup()
 	}
 	guard("lazy_type", typesCfg, map[string]string{"EagerType": "FALSE"}, "IRState.cfg", "ObserverTransparent")
+	guard("header_before_assign", locals, map[string]string{"HeaderBeforeAssign": "TRUE"}, "IRState.cfg", "PrintTwiceSame,PrintFuncTwiceSame,PrintFuncIsPart,ObserverTransparent")
 	guard("md_one_pass", metadata, map[string]string{"MdVariant": `"one-pass"`}, "IRState.cfg", "ObserverTransparent")
 	guard("md_literal_ids", metadata, nil, "IRStateMdLiteral.cfg", "ObserverTransparentLiteral")
 	if tier == "thorough" {
